@@ -97,7 +97,14 @@ pub fn run_script(who: Who, script: &[InOp], sh: &Rc<Shared>, tables: &TablesWea
                     sh.log(Event::ClosureRead { who, obs: *o, result: obs.read() });
                 }
             }
-            InOp::ReadOwn | InOp::UnsubscribeSelf | InOp::DisallowOwn | InOp::SubscribeOwn => {
+            InOp::DropVar(var) => {
+                let v = t.borrow_mut().vars.get_mut(*var).and_then(|v| v.take());
+                if v.is_some() {
+                    drop(v);
+                    sh.log(Event::VarDropped { who, var: *var });
+                }
+            }
+            InOp::ReadOwn | InOp::UnsubscribeSelf | InOp::DisallowOwn | InOp::SubscribeOwn | InOp::DropOwn => {
                 let Who::Handler(sub) = who else { continue };
                 let info = {
                     let t = t.borrow();
@@ -115,6 +122,13 @@ pub fn run_script(who: Who, script: &[InOp], sh: &Rc<Shared>, tables: &TablesWea
                     InOp::DisallowOwn => {
                         h.disallow();
                         sh.log(Event::DisallowBy { obs, by: sub });
+                    }
+                    InOp::DropOwn => {
+                        let handles = std::mem::take(&mut t.borrow_mut().observers[obs]);
+                        drop(handles);
+                        drop(h);
+                        sh.log(Event::DisallowBy { obs, by: sub });
+                        continue;
                     }
                     InOp::SubscribeOwn => {
                         let new_sub = sh.next_sub.get();
@@ -459,6 +473,39 @@ impl Builder {
                         result: Val::I(r),
                     });
                     (r, changed)
+                }))
+            }
+            Kind::MapWithOldPair(f, a, truthful) => {
+                let (f, truthful) = (*f, *truthful);
+                Handle::P(get(*a).i().map_with_old(move |old: Option<(i64, i64)>, x| {
+                    let _ = &tok;
+                    sh.tick("map_with_old");
+                    let r = (*x, f.ap(*x));
+                    let changed = if truthful { old != Some(r) } else { true };
+                    sh.log(Event::Invoke {
+                        key,
+                        args: vec![Val::I(*x), old.map(|o| Val::P(o.0, o.1)).unwrap_or(Val::I(-1))],
+                        result: Val::P(r.0, r.1),
+                    });
+                    (r, changed)
+                }))
+            }
+            Kind::MapHold(f, a, var) => {
+                let f = *f;
+                let var = *var;
+                let held: Option<incremental::Var<i64>> = self.tables.upgrade().and_then(|t| match t.borrow().vars.get(var) {
+                    Some(Some(VarH::I(v))) => Some(v.clone()),
+                    _ => None,
+                });
+                Handle::I(get(*a).i().map(move |x| {
+                    let _ = &tok;
+                    sh.tick("map");
+                    let r = f.ap(*x);
+                    sh.log(Event::Invoke { key, args: vec![Val::I(*x)], result: Val::I(r) });
+                    if let Some(v) = &held {
+                        sh.log(Event::ClosureReadVar { who: Who::Node(key), var, got: Val::I(v.get()) });
+                    }
+                    r
                 }))
             }
             Kind::Map2(f, a, b) => {
